@@ -277,8 +277,23 @@ fn c08_program(depth: u32) -> BoxedStrategy<String> {
             ]
         })
         .boxed();
+    // `L && f(E)` / `L || f(E)`: the right operand is directly a call whose argument fails or assigns
+    let bool_leaf = prop_oneof![
+        any::<bool>().prop_map(|x| Ast::Lit(RV::Bool(x))),
+        (e.clone(), e.clone()).prop_map(|(a, c)| Ast::Bin(BinOp::Lt, Box::new(a), Box::new(c))),
+    ];
+    let failing = prop_oneof![
+        Just(Ast::Bin(BinOp::Div, Box::new(Ast::Lit(RV::Int(1))), Box::new(Ast::Lit(RV::Int(0))))),
+        Just(Ast::Var("missing".into())),
+        e.clone(),
+        e.clone().prop_map(|a| Ast::Chain(vec![Ast::Assign(AssignOp::Set, "x".into(), Box::new(a)), Ast::Lit(RV::Bool(true))])),
+    ];
+    let logic = (any::<bool>(), bool_leaf, proptest::sample::select(vec!["f", "g", "typeof", "math::is_nan", "nofn"]), failing).prop_map(
+        |(and, l, f, arg)| Ast::Bin(if and { BinOp::And } else { BinOp::Or }, Box::new(l), Box::new(Ast::Call(f.to_string(), Box::new(arg)))),
+    );
     let stmt = prop_oneof![
         3 => e.clone(),
+        2 => logic,
         2 => (proptest::sample::select(vec!["a", "b", "x", "n"]), proptest::sample::select(AssignOp::ALL.to_vec()), e.clone())
             .prop_map(|(n, o, a)| Ast::Assign(o, n.to_string(), Box::new(a))),
     ];
